@@ -173,6 +173,7 @@ func (l *Lasso) pattern(from int) string {
 	type ev struct{ origin, target string }
 	moved := map[string]ev{}
 	returned := map[string]bool{}
+	anyMoved := false
 	n := 0
 	for c := from; c < len(l.Events); c++ {
 		piped := map[string]string{}
@@ -200,13 +201,21 @@ func (l *Lasso) pattern(from int) string {
 				}
 				if to, ok := piped[e.Pod]; ok && to != origin {
 					moved[lp] = ev{origin, to}
+					anyMoved = true
+				} else if !ok && origin != "" {
+					moved[lp] = ev{origin, ""} // a plain victim: evicted, not re-nominated
 				} else {
 					return "other"
 				}
-			case "bind":
-				if m, ok := moved[lp]; ok && e.Action == "allocate" && e.Node == m.origin {
-					returned[lp] = true
-				}
+			}
+		}
+	}
+	// the period is a rotation of the loop: the bind that brings a pod back may come before its eviction in the window
+	for c := from; c < len(l.Events); c++ {
+		for i := range l.Events[c] {
+			e := &l.Events[c][i]
+			if m, ok := moved[logicalPod(e.Pod)]; ok && OK(e) && e.Kind == "bind" && e.Action == "allocate" && e.Node == m.origin {
+				returned[logicalPod(e.Pod)] = true
 			}
 		}
 	}
@@ -217,6 +226,11 @@ func (l *Lasso) pattern(from int) string {
 		if !returned[lp] {
 			return "other"
 		}
+	}
+	if !anyMoved {
+		// victims of reclaim / preempt are re-created and bound by allocate where they were before the pending
+		// workload they were evicted for is placed
+		return "victims-return-to-origin"
 	}
 	return "moved-pod-returns-to-origin"
 }
